@@ -4,6 +4,7 @@
 import PtaModel
 import PtaSpec
 import Bridge.Abs
+import Bridge.RuleChain
 import Driver.Proto
 namespace Driver
 open Pta
@@ -110,7 +111,10 @@ def specAnswer (a : Args) : String :=
   | none => "S=NA D=-"
   | some r =>
     let arch := archOf a
-    let dom := s!"{if arch.wf then "w" else "-"}{if r.strict then "s" else "-"}{if r.namesIn arch then "n" else "-"}"
+    -- fourth flag: the rule lies in the domain of the general oracle theorems (`Pta.C01.verdict_spec_parentFree`)
+    let pf := Pta.parentFree r && !r.subjects.isEmpty && (r.anything || !r.objects.isEmpty) &&
+      (!r.anything || r.verb == PtaSpec.Verb.shouldNot)
+    let dom := s!"{if arch.wf then "w" else "-"}{if r.strict then "s" else "-"}{if r.namesIn arch then "n" else "-"}{if pf then "p" else "-"}"
     let v := if PtaSpec.verdict arch r then "PASS"
       else "FAIL:" ++ joinStr ";" (canonSet ((PtaSpec.violating arch r).map (renderSItem (!r.importDir))))
     s!"S={v} D={dom}"
